@@ -17,7 +17,7 @@ import (
 // last Flush) is reopened, audited and caught up. What is on the committed side
 // must be byte for byte what the last commit stored.
 
-const crashSignal = "crashSignal: the process stops here"
+const crashSignal = storeobs.CrashSignal
 
 type liveOutcome struct {
 	fail    *failure
@@ -31,6 +31,7 @@ func runLive(t *chaingen.Tree, cs Case, crashAt int, finalIdx int) (lo liveOutco
 	backend, closeDB := newBackend(Case{Seed: cs.Seed, Sched: fmt.Sprintf("live%d-%s", crashAt, cs.Sched), Bolt: cs.Bolt})
 	defer closeDB()
 	rec := storeobs.NewRecDB(backend)
+	rec.CrashAtWrite = cs.CrashAtWrite
 	var nd *storeobs.Node
 	rec.StepNow = func() int {
 		switch {
@@ -46,7 +47,17 @@ func runLive(t *chaingen.Tree, cs Case, crashAt int, finalIdx int) (lo liveOutco
 	if cs.Cache {
 		db = chain.NewCacheDB(rec) // its overlay dies with the process
 	}
-	nd, err = storeobs.NewNode(t, db, nil)
+	func() {
+		defer func() {
+			if r := recover(); r != nil {
+				err = fmt.Errorf("%v", r)
+			}
+		}()
+		nd, err = storeobs.NewNodeOpt(t, db, nil, cs.Quiet)
+	}()
+	if err != nil && strings.Contains(err.Error(), crashSignal) {
+		return // the chosen write lies inside the opening of the store: no history yet
+	}
 	if err != nil {
 		lo.fail = &failure{"c03-store-does-not-open", err.Error(), -1}
 		return
@@ -63,7 +74,7 @@ func runLive(t *chaingen.Tree, cs Case, crashAt int, finalIdx int) (lo liveOutco
 		}
 	}
 	for _, op := range cs.Plan {
-		obs := nd.Do(op)
+		obs := storeobs.DoOp(nd, op)
 		if obs.Panic && strings.Contains(obs.ErrText, crashSignal) {
 			lo.crashed = true
 			break
@@ -78,13 +89,21 @@ func runLive(t *chaingen.Tree, cs Case, crashAt int, finalIdx int) (lo liveOutco
 	}
 	fail := func(kind, format string, a ...any) {
 		if lo.fail == nil {
-			lo.fail = &failure{kind, fmt.Sprintf("process stopped after block step %d (%d block steps after the last commit), the database discarded its uncommitted window: ", crashAt, lo.pending) + fmt.Sprintf(format, a...), crashAt}
+			where := fmt.Sprintf("after block step %d", crashAt)
+			if cs.CrashAtWrite > 0 {
+				where = fmt.Sprintf("at write %d, inside the step after block step %d", cs.CrashAtWrite, len(nd.Steps)-1)
+			}
+			lo.fail = &failure{kind, fmt.Sprintf("process stopped %s (%d block steps after the last commit), the database discarded its uncommitted window: ", where, lo.pending) + fmt.Sprintf(format, a...), crashAt}
 		}
 	}
 	// the process is gone; the database drops what was not committed
 	rec.Cancel()
 	last := rec.Images[len(rec.Images)-1]
-	lo.pending = crashAt - last.Step
+	lo.pending = len(nd.Steps) - 1 - last.Step
+	if last.Step >= len(nd.Steps) {
+		fail("c03-commit-inside-an-unfinished-step", "the database committed during block step %d, which never completed: the last commit is no block boundary", last.Step)
+		return
+	}
 	if rec.AliasErr != "" {
 		fail(kindAlias, "%s", rec.AliasErr)
 		return
@@ -149,7 +168,7 @@ func runLive(t *chaingen.Tree, cs Case, crashAt int, finalIdx int) (lo liveOutco
 		fail("c03-image-does-not-reopen", "second reopen: %v", err)
 		return
 	}
-	for _, op := range cs.Plan {
+	for _, op := range storeobs.PlainOps(cs.Plan) {
 		obs := nd2.Do(op)
 		if obs.Panic {
 			fail("c03-catch-up-panics", "re-submitting %v panicked: %s", op, obs.ErrText)
